@@ -7,6 +7,7 @@ import (
 	"encoding/asn1"
 	"errors"
 	"fmt"
+	"math/bits"
 	"reflect"
 )
 
@@ -154,12 +155,13 @@ const (
 // It will ensure that the flaglist is always valid, effectively
 // ignoring the least significant bit of flags by zeroing it.
 func NewKeyUsage(critical bool, flags KeyUsage) pkix.Extension {
-	content := make([]byte, 1)
-	content[0] = uint8(flags & 0xFE) //lowest bit must be zero
+	flagByte := uint8(flags & 0xFE) //lowest bit must be zero
 
-	bs := asn1.BitString{
-		Bytes:     content,
-		BitLength: 7,
+	//a named bit list is encoded without its trailing zero bits (X.690 11.2.2)
+	bs := asn1.BitString{}
+	if flagByte != 0 {
+		bs.Bytes = []byte{flagByte}
+		bs.BitLength = 8 - bits.TrailingZeros8(flagByte)
 	}
 
 	//disard error since we control the data
